@@ -8,6 +8,7 @@ import (
 	"os"
 	"path"
 	"path/filepath"
+	"reflect"
 	"regexp"
 	"runtime"
 	"sort"
@@ -19,6 +20,7 @@ import (
 
 	"github.com/CloudyKit/jet/v6"
 	"verifh/internal/fw"
+	"verifh/internal/jx"
 	"verifh/internal/rec"
 	"verifh/internal/tgen"
 )
@@ -173,6 +175,13 @@ func c02build(c *fw.Ctx, idx int) c02case {
 			src = d.L + a + sep + b + d.R
 		}
 		return c02case{Class: "token-pair", Delims: d.Name, Entry: "parse", Name: "/t.jet", Src: src}
+	}
+	if idx%97 == 5 {
+		// number literals the lexer lets through: whatever the parser makes of them, the template it returns without an
+		// error can be executed (checked in c02run)
+		lit := []string{"0x", "0X", "0x1.8", "0xFFFFFFFFFFFFFFFFFFFF", "0x1p-2", "1e", "1e+", "0b12", "0o9", "1_000", "0x_1", "1.2.3", "00.5", "1i", "0x1i", "9223372036854775808", "1e400", ".e1"}[r.Intn(18)]
+		src := "n" + d.L + " " + lit + " " + d.R + "\n" + d.L + " 1 + " + lit + " " + d.R
+		return c02case{Class: "number-literal", Delims: d.Name, Entry: []string{"parse", "get"}[r.Intn(2)], Name: "/t.jet", Src: src, Files: map[string]string{"/t.jet": src}}
 	}
 	d = delimCfgs[r.Intn(len(delimCfgs))]
 	cs := c02case{Delims: d.Name, Name: "/t.jet", Entry: []string{"parse", "get"}[r.Intn(2)]}
@@ -342,6 +351,45 @@ type c02outcome struct {
 	pan interface{}
 }
 
+// c02valuelessNumber finds a number literal node of the parsed tree that carries no value of any numeric kind.
+func c02valuelessNumber(v reflect.Value, depth int) string {
+	if depth > 64 {
+		return ""
+	}
+	switch v.Kind() {
+	case reflect.Interface, reflect.Ptr:
+		if v.IsNil() {
+			return ""
+		}
+		if n, ok := v.Interface().(*jet.NumberNode); ok {
+			if !n.IsInt && !n.IsUint && !n.IsFloat && !n.IsComplex {
+				return n.Text
+			}
+			return ""
+		}
+		return c02valuelessNumber(v.Elem(), depth+1)
+	case reflect.Struct:
+		if v.Type().Name() == "Template" || v.Type().Name() == "Set" {
+			return ""
+		}
+		for i := 0; i < v.NumField(); i++ {
+			if f := v.Type().Field(i); f.PkgPath != "" && !f.Anonymous {
+				continue
+			}
+			if s := c02valuelessNumber(v.Field(i), depth+1); s != "" {
+				return s
+			}
+		}
+	case reflect.Slice:
+		for i := 0; i < v.Len(); i++ {
+			if s := c02valuelessNumber(v.Index(i), depth+1); s != "" {
+				return s
+			}
+		}
+	}
+	return ""
+}
+
 // c02storm: lookups never hang while other goroutines edit other entries of the same in-memory loader.
 func c02storm(c *fw.Ctx, idx int) {
 	c.Begin(idx, map[string]interface{}{"class": "lookups-during-loader-edits", "readers": 6, "editors": 3, "iterations": 150})
@@ -467,6 +515,14 @@ func c02run(c *fw.Ctx, idx int) {
 			c.Violation(sig("nil-template-nil-error"), "", fmt.Sprintf("round %d: nil error but template=%v root=nil", round, o.t != nil))
 		case o.err == nil && cs.MustErr:
 			c.Violation(sig("accepted-structural-mistake"), "", "no error reported for a structurally invalid source")
+		}
+		if o.err == nil && o.pan == nil && o.t != nil && cs.Class == "number-literal" {
+			// usable: executing it evaluates the literals (an error about the operation is fine, one about the tree is not)
+			res := jx.Exec(o.t, nil, nil)
+			c.Count("accepted_number_literals_executed", 1)
+			if bad := c02valuelessNumber(reflect.ValueOf(o.t.Root), 0); res.Panic != nil || bad != "" {
+				c.Violation(sig("accepted-template-is-unusable"), "", fmt.Sprintf("%q was accepted without an error, but the tree holds the number literal %q with no value of any kind (int, uint, float, complex); executing it: %s", cs.Src, bad, res))
+			}
 		}
 		if o.err != nil {
 			c.Count("errors", 1)
